@@ -258,7 +258,14 @@ def run_case(case):
                     if lens is not None:
                         at = lens
                         mon.count("tissue:with-lens")
-                r = realise.realise(at, k=(0, 15) if rng.random() < 0.5 else int(rng.integers(0, 16)), rng=rng,
+                kspec = (0, 15) if rng.random() < 0.5 else int(rng.integers(0, 16))
+                if at.meta.get("lens") and np.random.default_rng([len(at.J), 9]).random() < 0.6:
+                    # the lens side as a TWO-POINT interface (its two ends then share three cells)
+                    lo, hi = kspec if isinstance(kspec, tuple) else (kspec, kspec)
+                    kr = np.random.default_rng([len(at.J), len(at.E), 3])
+                    kspec = {k_: int(kr.integers(lo, hi + 1)) for k_ in at.E}
+                    kspec[frozenset(at.meta["lens"][0])] = 0
+                r = realise.realise(at, k=kspec, rng=rng,
                                     relabel=bool(rng.integers(2)), shifts=True, flips="random", edge_dirs=True,
                                     cell_order=bool(rng.integers(2)), spacing="random" if rng.random() < 0.5 else "uniform")
                 _build_frame(r)
@@ -272,9 +279,18 @@ def run_case(case):
             rng = np.random.default_rng(case["seed"])
             for _ in range(case["count"]):
                 at = scen.base_tissue(rng, ["lat-square", "lat-brick", "lat-hex", "lat-square", "lat-tri", "lat-fan", "lat-diamond", "lat-rosette"][int(rng.integers(8))])
-                if rng.random() < 0.6:
+                pend = None
+                if at.meta.get("kind") in ("lat-square", "lat-hex", "lat-diamond") and len(at.cells) > 3 and \
+                        np.random.default_rng([len(at.J), case["seed"][2], 4]).random() < 0.35:
+                    # a cell hanging on the rest by ONE vertex (its outline is one closed interface through one junction)
+                    pr = np.random.default_rng([len(at.cells), case["seed"][2], 6])
+                    pend = tissue.pendant_subset(pr, at, int(pr.integers(1, max(2, len(at.cells) - 2))))
+                if pend is not None:
+                    at = at.sub(pend)
+                    mon.count("tissue:pendant-cell")
+                elif rng.random() < 0.6:
                     at = at.sub(tissue.random_connected_subset(rng, at, int(rng.integers(1, len(at.cells) + 1))))
-                if rng.random() < 0.3 and len(at.cells) > 6:
+                if pend is None and rng.random() < 0.3 and len(at.cells) > 6:
                     ids = sorted(at.cells)
                     drop = set(int(x) for x in rng.choice(ids, size=max(1, len(ids) // 6), replace=False))
                     at = at.sub(max(at.components([c for c in ids if c not in drop]), key=len))
